@@ -526,30 +526,38 @@ func ruleStreamNeverSilent(c *Ctx) {
 		for _, fv := range fvs {
 			if hg.Dominates(fv, rv) {
 				failed = true
-				continue
 			}
-			// `if ctx.Err() == nil { c.fail(...) }; return`
-			fg := hg.GuardsAt(fv)
-			if hasAtom(fg, func(a Atom) bool {
-				x, twn, ok := NilTest(a.E)
-				if !ok || twn != a.Val {
-					return false
+		}
+		if !failed && !byClient && !unres {
+			// `if ctx.Err() == nil { c.fail(…) }; return` in any spelling: assuming the caller's context is alive, this return
+			// is unreachable without passing a fail call
+			hctx := hs.CtxParam()
+			seen := hg.ReachUnder(func(e ast.Expr) tri {
+				x, twn, ok := NilTest(ast.Unparen(e))
+				if !ok {
+					return triUnknown
 				}
 				ce, isC := ast.Unparen(x).(*ast.CallExpr)
-				return isC && hs.Callee(ce) != nil && hs.Callee(ce).Name() == "Err"
-			}) {
-				// the return immediately follows the if that contains the fail
-				ifs, _ := hs.Enclosing(hg.Node(fv), func(n ast.Node) bool { _, ok := n.(*ast.IfStmt); return ok }).(*ast.IfStmt)
-				if ifs != nil {
-					if blk, ok := hs.ParentOf(ifs).(*ast.BlockStmt); ok {
-						for j, st := range blk.List {
-							if st == ast.Stmt(ifs) && j+1 < len(blk.List) && blk.List[j+1] == ast.Stmt(r) {
-								failed = true
-							}
-						}
+				if !isC {
+					return triUnknown
+				}
+				sel, isS := ast.Unparen(ce.Fun).(*ast.SelectorExpr)
+				if !isS || sel.Sel.Name != "Err" || hs.ObjOf(sel.X) != types.Object(hctx) {
+					return triUnknown
+				}
+				if twn {
+					return triTrue
+				}
+				return triFalse
+			}, func(v int) bool {
+				for _, fv := range fvs {
+					if v == fv {
+						return true
 					}
 				}
-			}
+				return false
+			})
+			failed = !seen[rv]
 		}
 		c.Check(byClient || unres || failed, "handleSSE:return#"+itoa(i), hs, r, "handleSSE stops only because the client closed, because the call was already failed as unresumable, or after marking the connection failed (unless the caller's ctx ended) (guards: %s)", atomsString(guards))
 	}
